@@ -27,6 +27,20 @@ def main():
     import random
     import time as real_time
 
+    pert = job.get("perturb", {})
+    # ---- perturbation 0: import order (what is already loaded when scenic gets imported)
+    order = int(pert.get("import_order", 0))
+    if order == 1:
+        import scenic.core.distributions  # noqa: F401  (a submodule first)
+        import scenic.core.regions  # noqa: F401
+    elif order == 2:
+        import trimesh  # noqa: F401  (third-party geometry stack before scenic)
+        import shapely.geometry  # noqa: F401
+        import scipy.spatial  # noqa: F401
+    elif order == 3:
+        import scenic.syntax.veneer  # noqa: F401
+        import scenic.core.object_types  # noqa: F401
+
     import numpy
 
     import scenic
@@ -34,7 +48,6 @@ def main():
     import scenic.core.scenarios as scenarios_mod
     from scenic.core.distributions import Range, RejectionException
 
-    pert = job.get("perturb", {})
     mutant = job.get("mutant")
 
     # ---- perturbation 1: memory layout.  Objects allocated (and partly freed again) before
@@ -60,7 +73,40 @@ def main():
         def __getattr__(self, name):
             return getattr(real_time, name)
 
-    if pert.get("jitter_seed") is not None:
+    # ... or a SCRIPTED timing profile: every check is charged a duration that depends only on
+    # which requirement it is ("asc": later requirements look 1000x slower each, so the checker
+    # settles on the declaration order; "desc": the reverse order).  Two processes with the two
+    # profiles check the same requirements in opposite orders from the second attempt on.
+    class ProfileClock:
+        def __init__(self, kind):
+            self.kind = kind
+            self.now = 0.0
+            self.calls = 0
+            self.checker = None
+
+        def perf_counter(self):
+            self.calls += 1
+            if self.calls % 2 == 0:  # end of a check (WeightedAcceptanceChecker calls in pairs)
+                cost = 1e-6
+                try:
+                    req = sys._getframe(1).f_locals.get("req")
+                    reqs = list(self.checker.requirements)
+                    idx = next(i for i, r in enumerate(reqs) if r is req)
+                    rank = idx if self.kind == "asc" else len(reqs) - 1 - idx
+                    cost = 1e-9 * 1000.0 ** rank
+                except Exception:
+                    pass
+                self.now += cost
+            return self.now
+
+        def __getattr__(self, name):
+            return getattr(real_time, name)
+
+    clock = None
+    if pert.get("clock") in ("asc", "desc"):
+        clock = ProfileClock(pert["clock"])
+        sample_checking.time = clock
+    elif pert.get("jitter_seed") is not None:
         sample_checking.time = JitterClock(pert["jitter_seed"])
 
     # ---- in-process mutants (sensitivity self-test only; never on disk)
@@ -110,11 +156,23 @@ def main():
 
     res = {"ok": True}
     try:
+        res["scenic_path"] = os.path.dirname(scenic.__file__)
+        # ---- perturbation 4: a REUSED process: another scenario was compiled and sampled here before
+        if pert.get("warmup"):
+            random.seed(99)
+            numpy.random.seed(99)
+            warm = scenic.scenarioFromString(
+                "w1 = DiscreteRange(0, 5)\nw2 = DiscreteRange(0, 5)\nparam w = w1\nego = new Object with foo w2\n"
+                "require w1 <= w2\n", mode2D=False)
+            for _ in range(int(pert["warmup"])):
+                warm.generate(maxIterations=200, verbosity=0)
         seed = int(job["seed"])
         random.seed(seed)
         numpy.random.seed(seed)
         params = job.get("params") or {}
         scenario = scenic.scenarioFromString(job["text"], mode2D=bool(job.get("mode2D", False)), params=params)
+        if clock is not None:
+            clock.checker = scenario.checker
         res["rng_after_compile"] = rng_fingerprint()
         res["dep_order"] = [describe_dep(d) for d in scenario.dependencies]
 
@@ -159,6 +217,18 @@ def main():
             dump["iterations"] = M
             res["out"] = []
         res["n_generate_draws"] = len(log)
+        # further scenes from the same stream (what a leak into the stream shows up in)
+        more = []
+        for _ in range(int(job.get("nscenes", 1)) - 1):
+            try:
+                sc2, its2 = scenario.generate(maxIterations=M, verbosity=0)
+                more.append({"status": "accepted", "iterations": its2,
+                             "params": {k: canon(v) for k, v in sorted(sc2.params.items())},
+                             "objects": [canon_object(o) for o in sc2.objects]})
+            except RejectionException:
+                more.append({"status": "exhausted", "iterations": M})
+        if more:
+            dump["more_scenes"] = more
         if scene is not None and job.get("mode") == "dynamic":
             dump["simulation"] = run_simulation(scenario, scene, job)
         state["on"] = False
@@ -285,6 +355,52 @@ def install_mutant(name, scenarios_mod, sample_checking, random, numpy):
                 random.setstate, numpy.random.set_state = real_setstate, real_np_set
 
         Scenario._generateInner = inner
+    elif name == "restore-accepted-only":
+        # the generators are restored only when the sample is accepted: what a rejected
+        # sample's checks consumed leaks into the user-visible stream
+        real_check_cls = sample_checking.SampleChecker.checkRequirements
+
+        def check(self, sample):
+            r = real_check_cls(self, sample)
+            if r is not None:
+                self._c15_leak = (random.getstate(), numpy.random.get_state())
+            else:
+                self._c15_leak = None
+            return r
+
+        sample_checking.SampleChecker.checkRequirements = check
+        real_setstate, real_np_set = random.setstate, numpy.random.set_state
+        real_inner = Scenario._generateInner
+
+        def inner(self, maxIterations, verbosity, feedback):
+            chk = self.checker
+
+            def setstate(st):
+                leak = getattr(chk, "_c15_leak", None)
+                real_setstate(leak[0] if leak else st)
+
+            def np_set(st):
+                leak = getattr(chk, "_c15_leak", None)
+                real_np_set(leak[1] if leak else st)
+
+            random.setstate, numpy.random.set_state = setstate, np_set
+            try:
+                return real_inner(self, maxIterations, verbosity, feedback)
+            finally:
+                random.setstate, numpy.random.set_state = real_setstate, real_np_set
+
+        Scenario._generateInner = inner
+    elif name == "unsorted-required-props":
+        # Specifier.requiredProperties in set order (seeded change 2 shape)
+        import scenic.core.specifiers as specs_mod
+
+        real_init = specs_mod.Specifier.__init__
+
+        def init(self, name_, priorities, value, deps=None):
+            real_init(self, name_, priorities, value, deps)
+            self.requiredProperties = tuple(set(self.requiredProperties))
+
+        specs_mod.Specifier.__init__ = init
     elif name in ("setparams", "hashparams"):
         # Scenario.__init__ collecting the random params in a set / ordering them by a string hash
         from scenic.core.distributions import Samplable
